@@ -53,11 +53,28 @@ def storage_kwargs(storage, n, rng_chunk):
     return kw
 
 
-def create(group, name, data, storage, chunk, dtype=None):
+def trailing_chunks(shape, tail):
+    """chunk lengths for the non-leading axes: `full` = the whole axis (what dclab / Shape-In
+    write), `even` = a proper divisor of the axis, `ragged` = a length that does NOT divide the
+    axis (edge chunks are clipped), `mixed` = ragged in the last axis only"""
+    out = []
+    for ax, m in enumerate(shape):
+        kind = tail if tail != "mixed" else ("ragged" if ax == len(shape) - 1 else "full")
+        if kind == "even":
+            c = next((d for d in (4, 3, 2) if m % d == 0 and d < m), m)
+        elif kind == "ragged":
+            c = next((d for d in (5, 7, 4, 3, 2) if m % d != 0 and d < m), m)
+        else:
+            c = m
+        out.append(c)
+    return tuple(out)
+
+
+def create(group, name, data, storage, chunk, dtype=None, tail="full"):
     data = np.asarray(data) if dtype is None else np.asarray(data, dtype=dtype)
     kw = storage_kwargs(storage, data.shape[0], chunk)
     if "chunks" in kw:
-        kw["chunks"] = (kw["chunks"],) + data.shape[1:]
+        kw["chunks"] = (kw["chunks"],) + trailing_chunks(data.shape[1:], tail or "full")
     if kw.pop("maxshape", False):
         kw["maxshape"] = (None,) + data.shape[1:]
     return group.create_dataset(name, data=data, **kw)
@@ -74,12 +91,21 @@ def gen_spec(rng, thorough=False):
         feats.append({"name": name, "kind": "scalar", "storage": st(),
                       "chunk": rng.randint(1, 7), "attrs": attrs,
                       "wrongattr": rng.random() < 0.1})
+        # legal float payloads that are not ordinary numbers: NaN, +inf, -inf (also all-NaN)
+        if name != "frame" and rng.random() < 0.35:
+            if rng.random() < 0.12:
+                feats[-1]["special"] = [[i, "nan"] for i in range(n)]
+            else:
+                feats[-1]["special"] = [[rng.randrange(n), rng.choice(SPECIALS)]
+                                        for _ in range(rng.randint(1, 3))]
+    tails = ["full", "full", "even", "ragged", "ragged", "mixed"]
     if rng.random() < 0.4:
-        feats.append({"name": "image", "kind": "image", "storage": st(), "chunk": rng.randint(1, 5)})
+        feats.append({"name": "image", "kind": "image", "storage": st(), "chunk": rng.randint(1, 5),
+                      "tail": rng.choice(tails)})
     if rng.random() < 0.3:
         feats.append({"name": "trace", "kind": "trace", "storage": st(), "chunk": rng.randint(1, 5),
                       "members": rng.choice([["fl1_raw"], ["fl1_raw", "fl1_median"]]),
-                      "emptymember": rng.random() < 0.2})
+                      "emptymember": rng.random() < 0.2, "tail": rng.choice(tails)})
     spec = {"n": n, "feats": feats, "unknown": rng.random() < 0.15, "defective": None,
             "emptyscalar": rng.random() < 0.04, "emptyimage": rng.random() < 0.05,
             "logs": [], "tables": [], "basins": [], "writer": False,
@@ -115,6 +141,16 @@ def gen_spec(rng, thorough=False):
     for k in kinds:
         spec["basins"].append({"kind": k, "storage": rng.choice(["contig", "zstd5", "chunk"]),
                                "nonscalar": rng.random() < 0.5})
+        if k == "internal":
+            # the definition lists its features in ANY order (third-party writers; dclab's own
+            # writer sorts them), one to three internal features
+            fl = ["userdef1"] + (["mask"] if spec["basins"][-1]["nonscalar"] else []) \
+                + (["userdef0"] if rng.random() < 0.4 else [])
+            rng.shuffle(fl)
+            spec["basins"][-1]["ifeats"] = fl
+            spec["basins"][-1]["tail"] = rng.choice(tails)
+        elif rng.random() < 0.4:
+            spec["basins"][-1]["rev"] = True           # feature list in descending order
     if rng.random() < 0.15:
         spec["writer"] = True
     return spec
@@ -165,13 +201,14 @@ def build(spec, path, wd):
         ev = h.create_group("events")
         for f in spec["feats"]:
             if f["kind"] == "scalar":
-                data = gen.rows(f["name"], toks)
+                data = apply_special(gen.rows(f["name"], toks), f.get("special"))
                 d = create(ev, f["name"], data, f["storage"], f["chunk"])
                 for a in f["attrs"]:
                     val = summary({"min": np.nanmin, "max": np.nanmax, "mean": np.nanmean}[a], data)
                     d.attrs[a] = val + (1.0 if f.get("wrongattr") else 0)
             elif f["kind"] == "image":
-                d = create(ev, "image", gen.rows("image", toks), f["storage"], f["chunk"])
+                d = create(ev, "image", gen.rows("image", toks), f["storage"], f["chunk"],
+                           tail=f.get("tail"))
                 d.attrs["CLASS"] = np.bytes_("IMAGE")
                 d.attrs["IMAGE_VERSION"] = np.bytes_("1.2")
                 d.attrs["IMAGE_SUBCLASS"] = np.bytes_("IMAGE_GRAYSCALE")
@@ -179,7 +216,7 @@ def build(spec, path, wd):
                 g = ev.create_group("trace")
                 for mname in f["members"]:
                     create(g, mname, np.array([gen.payload("trace/" + mname, t) for t in toks]),
-                           f["storage"], f["chunk"])
+                           f["storage"], f["chunk"], tail=f.get("tail"))
                 if f.get("emptymember"):
                     g.create_dataset("fl2_raw", shape=(0, gen.TRACE_LEN), dtype=np.int16)
         for name in spec.get("extra_feats", []):
@@ -262,18 +299,22 @@ def build(spec, path, wd):
                     bmap_i += 1
                     ev.create_dataset(mapping, data=np.array([(3 * i) % no for i in range(n)],
                                                              dtype=np.uint64))
+                if b.get("rev"):
+                    feats = sorted(feats, reverse=True)
                 bd = {"description": None, "format": "hdf5", "name": "b-" + b["kind"],
                       "type": "file", "features": feats, "mapping": mapping,
                       "paths": [str(origin)]}
             else:
                 m = max(2, n // 2)
                 be = h.require_group("basin_events")
-                feats = ["userdef1"]
-                create(be, "userdef1", np.arange(m, dtype=float) + 0.25, b["storage"], 2)
-                if b["nonscalar"]:
-                    feats = ["mask", "userdef1"]
-                    create(be, "mask", np.array([gen.payload("mask", t) for t in range(m)]),
-                           b["storage"], 2)
+                feats = list(b.get("ifeats") or (["mask", "userdef1"] if b["nonscalar"]
+                                                 else ["userdef1"]))
+                for k, bf in enumerate(sorted(set(feats))):
+                    if bf == "mask":
+                        create(be, "mask", np.array([gen.payload("mask", t) for t in range(m)]),
+                               b["storage"], 2, tail=b.get("tail"))
+                    else:
+                        create(be, bf, np.arange(m, dtype=float) + 0.25 + 10 * k, b["storage"], 2)
                 mapping = f"basinmap{bmap_i}"
                 bmap_i += 1
                 ev.create_dataset(mapping, data=np.array([i % m for i in range(n)], dtype=np.uint64))
@@ -375,6 +416,21 @@ def defect_oracle(h, feat):
             return True
         return not vtuple(si) >= (2, 0, 5)
     return False
+
+
+SPECIALS = ["nan", "+inf", "-inf", "+inf", "-inf"]
+SPECIAL_VALUES = {"nan": np.nan, "+inf": np.inf, "-inf": -np.inf}
+
+
+def apply_special(data, special):
+    """put NaN / +inf / -inf at the listed positions of a float feature"""
+    if not special or data.dtype.kind != "f":
+        return data
+    data = np.array(data, copy=True)
+    for i, kind in special:
+        if 0 <= i < len(data):
+            data[i] = SPECIAL_VALUES[kind]
+    return data
 
 
 SW_CHAINS = ["verif 1.0", "ShapeIn 2.0.6", "ShapeIn 2.0.7", "ShapeIn 2.0.1 | dclab 0.36.0",
@@ -547,8 +603,21 @@ def arr_canon(a):
 def dclab_view(path, enable_basins=False):
     """features_innate values, logs, tables (+attributes), config, basin definitions"""
     dclab = common.import_dclab()
-    v = {"feats": {}, "logs": {}, "tables": {}, "config": {}, "basins": []}
+    v = {"feats": {}, "logs": {}, "tables": {}, "config": {}, "basins": [], "summ": {}}
+    import warnings
     with dclab.new_dataset(path, enable_basins=enable_basins) as ds:
+        for f in ds.features_innate:
+            # what `ds[feat].min() / .max() / .mean()` tell the user (public accessors of the
+            # feature object; skipped when a feature object does not offer them)
+            try:
+                if f in ds.features_scalar and len(ds[f]):
+                    with warnings.catch_warnings():
+                        warnings.simplefilter("ignore")
+                        obj = ds[f]
+                        v["summ"][f] = (np.asarray(obj[:]).dtype.itemsize <= 4,
+                                        tuple(float(getattr(obj, k)()) for k in ("min", "max", "mean")))
+            except Exception:  # noqa
+                v["summ"][f] = None
         for f in ds.features_innate:
             if f == "trace":
                 v["feats"]["trace"] = {k: arr_canon(ds["trace"][k][:])
